@@ -150,7 +150,7 @@ def make_reference(rng, path, encoding='csr'):
                         obs_cols={'class': cls, 'cluster': clu})
 
 
-def mapping_job(rng, area, failure, tag, tmp_dir=True):
+def mapping_job(rng, area, failure, tag, tmp_dir=True, obsm=False):
     """inputs of one mapping run under area.inp/<tag>/, outputs named after
     the tag in the shared output directory"""
     sub = area.inp / tag
@@ -183,6 +183,12 @@ def mapping_job(rng, area, failure, tag, tmp_dir=True):
     if cfg['csv_result_path']:
         outputs.append(cfg['csv_result_path'])
     scratch = [str(area.tmp)] if tmp_dir else [str(out)]
+    if obsm:
+        # "the query file is written to only when storing results in it is
+        # requested": then, and only then, the query is also an output
+        cfg['obsm_key'] = 'ctm_results'
+        cfg['obsm_clobber'] = True
+        outputs.append(cfg['query_path'])
     job = {'stage': 'mapping', 'config': cfg}
     if fault is not None:
         # several chunks in flight, the failing one in the middle
@@ -590,12 +596,14 @@ MAPPING_FAILURES = ['negative_raw', 'no_marker_overlap',
 
 
 def history_mapping(ctx, rng, failure, encoding_hint=None, tmp_dir=True,
-                    traced_all=True, then_success=True):
+                    traced_all=True, then_success=True, obsm=False):
     """stale files -> [failing run] -> successful run, same directories; the
     successful run is compared with a solo run"""
     hist = 'stale+%s+success' % failure if failure else 'stale+success'
     if not tmp_dir:
         hist += '/no-tmp-dir'
+    if obsm:
+        hist += '/obsm'
     with pipeline.workdir('ctmverif_c19_') as wd:
         area = Area(wd)
         plant_stale(rng, area.tmp)
@@ -609,7 +617,7 @@ def history_mapping(ctx, rng, failure, encoding_hint=None, tmp_dir=True,
         fail2 = 'csc_query' if encoding_hint == 'csc' else 'success'
 
         def build(r, a):
-            return mapping_job(r, a, fail2, 'good', tmp_dir)
+            return mapping_job(r, a, fail2, 'good', tmp_dir, obsm)
         good = build(rng, area)
         got = run_specs(ctx, area, [good], hist + ':success')[0]
         solo = solo_result(ctx, state, build, 'mapping')
@@ -719,6 +727,9 @@ def run(ctx):
         history_mapping(ctx, rng, None, encoding_hint='csc')
         history_mapping(ctx, rng, 'negative_raw', tmp_dir=False)
         history_mapping(ctx, rng, None, tmp_dir=False)
+        history_mapping(ctx, rng, None, obsm=True)
+        history_mapping(ctx, rng, 'negative_raw', obsm=True,
+                        encoding_hint='csc')
         for enc in ('csr', 'csc', 'dense'):
             history_stages(ctx, rng, enc, twice=(enc == 'csr'))
         for i in range(10):
@@ -759,7 +770,8 @@ def replay(ctx, data, from_corpus=False):
                             encoding_hint='csc'
                             if spec.get('encoding') == 'csc' else None,
                             tmp_dir=spec.get('tmp_dir_given', True),
-                            traced_all=failure != 'unwritable_output')
+                            traced_all=failure != 'unwritable_output',
+                            obsm='/obsm' in hist)
         else:
             history_stages(ctx, rng, spec.get('encoding', 'csr')
                            if spec.get('encoding') in ('csr', 'csc', 'dense')
